@@ -126,7 +126,7 @@ type nbytes []byte
 
 func runPU(c puCase, r *pb.Rec) error {
 	s := string(c.S)
-	in := append([]byte(nil), c.S...)
+	in := append(make([]byte, 0, len(c.S)+5), c.S...) // spare capacity: also the shape of buf[:0] for empty input
 	want, werr := strconv.ParseUint(s, c.Base, c.BitSize)
 	got, gerr := strz.ParseUint(s, c.Base, c.BitSize)
 	gotB, gerrB := strz.ParseUint(in, c.Base, c.BitSize)
@@ -241,7 +241,7 @@ func errText(e error) string {
 }
 
 func runEnc(c encCase, r *pb.Rec) error {
-	in := append([]byte(nil), c.S...)
+	in := append(make([]byte, 0, len(c.S)+5), c.S...) // spare capacity: also the shape of buf[:0] for empty input
 	s := string(c.S)
 	switch c.Op {
 	case "hexenc":
@@ -383,7 +383,7 @@ type errReader struct{}
 func (errReader) Read([]byte) (int, error) { return 0, errors.New("injected read fault") }
 
 func runDig(c digCase, r *pb.Rec) error {
-	in := append([]byte(nil), c.Data...)
+	in := append(make([]byte, 0, len(c.Data)+5), c.Data...)
 	s := string(c.Data)
 	type one struct {
 		name   string
@@ -584,13 +584,13 @@ func FuzzHex(f *testing.F) {
 }
 
 func init() {
-	pb.Register("parseuint", pb.Options{Base: 40000, Required: []string{"underscore accepted", "out of range", "base prefix", "accepted"},
+	pb.Register("parseuint", pb.Options{Twins: 3, Base: 40000, Required: []string{"underscore accepted", "out of range", "base prefix", "accepted"},
 		Rule: "strings assembled from a base prefix, the digits of a magnitude centred on the overflow cut-offs of the (base, bitSize) pair (maxVal±2, 2^64±2, cutoff·base±2, cutoff±1, much larger, uniform) rendered in that base, and mutations (underscores legal/illegal, digit >= base, sign, empty, trailing garbage); base -1..37, bitSize -1..65; oracle strconv.ParseUint (value and error-ness), string == []byte; non-trivial = contains '_' or is out of range or > 2^32"},
 		genPU, runPU)
-	pb.Register("hex_base64", pb.Options{Base: 30000, Required: []string{"invalid byte in odd-length input", "odd length", "base64 corrupt"},
+	pb.Register("hex_base64", pb.Options{Twins: 3, Base: 30000, Required: []string{"invalid byte in odd-length input", "odd length", "base64 corrupt"},
 		Rule: "hex/base64 encode and decode of valid and corrupted inputs (cut, bad char at any position, odd length with and without an invalid char); oracle encoding/hex, encoding/base64 incl. decoded prefix and error text, all four string/[]byte/ToString variants, input unchanged; non-trivial = error case or > 2 bytes"},
 		genEnc, runEnc)
-	pb.Register("digests", pb.Options{Base: 3000, Required: []string{"results re-read after 160 KB of later results", "hmac key longer than block", "healthy stream after a broken one", "data larger than the copy buffer"},
+	pb.Register("digests", pb.Options{Twins: 3, Base: 3000, Required: []string{"results re-read after 160 KB of later results", "hmac key longer than block", "healthy stream after a broken one", "data larger than the copy buffer"},
 		Rule: "data 0..300 bytes, HMAC keys 0..150 bytes, stream form through a reader with drawn chunk sizes (incl. 0-byte reads and data+EOF); oracle crypto/* digests in lower-case hex; non-trivial = data longer than one block"},
 		genDig, runDig)
 	pb.Register("ipv4", pb.Options{Base: 30000, Rule: "boundary octets, one or two non-zero octets, uniform uint32; oracle dotted-quad of the octets and IPv4ToLong(LongToIPv4(x)) == x; non-trivial = x > 255"},
